@@ -387,6 +387,9 @@ func CheckC10(c *Ctx) {
 			c.violate("repository/missing-asset", "asset.(*InMemoryRepository).Get", "unknown asset", get.Decl.Pos(), "reading an unknown asset no longer yields an error")
 		}
 	}
+	if app := c.fn("asset", "InMemoryRepository", "Append"); app != nil {
+		c.appendExtends(app)
+	}
 	run.Floor("append_methods", 3)
 	run.Floor("getsince_filters", 2)
 	run.Assume("the SQL dialect's GetSince statement selects date >= bound in ascending date order (text supplied by the dialect, not analysed)")
@@ -649,4 +652,111 @@ func (c *Ctx) zeroTimeHasError(fi *load.FuncInfo) {
 		}
 		return true
 	})
+}
+
+// appendExtends: every value stored into the repository's map by Append is the previous
+// entry extended (append(old, ...)), never a replacement.
+func (c *Ctx) appendExtends(fi *load.FuncInfo) {
+	run := c.Run
+	info := fi.Pkg.TypesInfo
+	site := load.FuncName(fi.Fn)
+	defs := singleDefs(info, fi.Decl.Body)
+	isEntry := func(e ast.Expr) (string, bool) {
+		ix, ok := e.(*ast.IndexExpr)
+		if !ok {
+			return "", false
+		}
+		t := info.TypeOf(ix.X)
+		if t == nil {
+			return "", false
+		}
+		if _, isMap := t.Underlying().(*types.Map); !isMap {
+			return "", false
+		}
+		if _, isField := ix.X.(*ast.SelectorExpr); !isField {
+			return "", false
+		}
+		return exprString(ix), true
+	}
+	n := 0
+	ast.Inspect(fi.Decl.Body, func(nd ast.Node) bool {
+		as, ok := nd.(*ast.AssignStmt)
+		if !ok {
+			return true
+		}
+		for i, l := range as.Lhs {
+			entry, ok := isEntry(l)
+			if !ok || i >= len(as.Rhs) {
+				continue
+			}
+			n++
+			good := false
+			var check func(e ast.Expr, depth int) bool
+			check = func(e ast.Expr, depth int) bool {
+				if depth > 4 {
+					return false
+				}
+				switch x := e.(type) {
+				case *ast.CallExpr:
+					if id, ok := x.Fun.(*ast.Ident); ok && id.Name == "append" && len(x.Args) >= 1 {
+						if en, ok := isEntry(x.Args[0]); ok && en == entry {
+							return true
+						}
+						return check(x.Args[0], depth+1)
+					}
+				case *ast.Ident:
+					obj := info.Uses[x]
+					if obj == nil {
+						return false
+					}
+					// a local initialised from the entry and afterwards only appended to
+					okAll, sawInit := true, false
+					ast.Inspect(fi.Decl.Body, func(m ast.Node) bool {
+						a2, ok := m.(*ast.AssignStmt)
+						if !ok {
+							return true
+						}
+						for j, l2 := range a2.Lhs {
+							id2, ok := l2.(*ast.Ident)
+							if !ok || j >= len(a2.Rhs) {
+								continue
+							}
+							o2 := info.Defs[id2]
+							if o2 == nil {
+								o2 = info.Uses[id2]
+							}
+							if o2 != obj {
+								continue
+							}
+							if en, ok := isEntry(a2.Rhs[j]); ok && en == entry {
+								sawInit = true
+								continue
+							}
+							if call, ok := a2.Rhs[j].(*ast.CallExpr); ok {
+								if f, ok := call.Fun.(*ast.Ident); ok && f.Name == "append" && len(call.Args) >= 1 {
+									if a0, ok := call.Args[0].(*ast.Ident); ok && info.Uses[a0] == obj {
+										continue
+									}
+								}
+							}
+							okAll = false
+						}
+						return true
+					})
+					return okAll && sawInit
+				}
+				return false
+			}
+			good = check(as.Rhs[i], 0)
+			run.Oblige(good)
+			if !good {
+				c.violate("repository/append-extends", site, "replaces "+entry, as.Pos(),
+					"Append stores a value that is not the previous entry extended with the new snapshots ("+exprString(as.Rhs[i])+"): earlier snapshots of the asset can be lost")
+			}
+		}
+		return true
+	})
+	_ = defs
+	run.Count("storage_writes", n)
+	run.Floor("storage_writes", 1)
 }
